@@ -4,9 +4,13 @@ import (
 	"bytes"
 	stdjson "encoding/json"
 	"fmt"
+	"io"
+	"math/rand"
 	"reflect"
 	"sort"
+	"strconv"
 	"strings"
+	"testing/iotest"
 	"unicode/utf8"
 
 	gojson "github.com/goccy/go-json"
@@ -184,9 +188,10 @@ func runC15(o *Out) {
 			kk = keys[:len(keys)/4+8]
 		}
 		for _, k := range kk {
-			c15Check(o, names, t, k, jsonKeyRaw(k))
-			c15Check(o, names, t, k, escapeAll(k))
-			c15Check(o, names, t, k, escapeFirst(k))
+			// c15CheckX: c15Check plus the exact-match rule, which needs no classifier (generator audit)
+			c15CheckX(o, names, t, k, jsonKeyRaw(k))
+			c15CheckX(o, names, t, k, escapeAll(k))
+			c15CheckX(o, names, t, k, escapeFirst(k))
 		}
 		// correspondence with the Coq bitmap model: eligible name sets only
 		if sorted, ok := c15Eligible(names); ok {
@@ -220,9 +225,18 @@ func runC15(o *Out) {
 		if (gerr != nil) != (werr != nil) || !bytes.Equal(g, w) {
 			o.violation("C15", "Marshal member names/order differ from encoding/json", map[string]string{"names": strings.Join(names, ","), "got": string(g), "want": string(w)})
 		}
+		c15EncodeAll(o, "names "+strings.Join(names, ","), v.Interface())
 	}
 	c15Embedded(o)
 	c15EmbeddedGenerated(o)
+	// strata added by the generator audit (below): they come last so that the cases above stay what they were
+	c15LongNames(o)
+	c15EscapeSpellings(o)
+	c15MultiKey(o)
+	c15BufferBoundary(o)
+	c15TagChars(o)
+	c15EmbeddedExtra(o)
+	c15FirstWin(o)
 }
 
 func jsonKeyRaw(k string) string {
@@ -394,4 +408,786 @@ func c15Eligible(names []string) ([]string, bool) {
 	}
 	sort.Strings(out)
 	return out, true
+}
+
+// ---------------------------------------------------------------------------
+// Strata added by the generator audit (wave 6).  Every one of them is judged by encoding/json.  Where the judge
+// is c15Check, its frozen classifier of recorded findings applies unchanged; the other strata build their inputs
+// so that no recorded class can be met (no two names equal under case folding, keys change the case of ASCII
+// letters only) and report every difference.
+
+var c15Hex = [2]string{"0123456789abcdef", "0123456789ABCDEF"}
+
+// \uXXXX for r (a surrogate pair above U+FFFF); hexCase 0 lower, 1 upper, 2 every digit at random
+func c15EscRune(sb *strings.Builder, r rune, hexCase int, rng *rand.Rand) {
+	units := []rune{r}
+	if r > 0xffff {
+		units = []rune{(r-0x10000)>>10 + 0xd800, (r-0x10000)&0x3ff + 0xdc00}
+	}
+	for _, u := range units {
+		sb.WriteString(`\u`)
+		for sh := 12; sh >= 0; sh -= 4 {
+			hc := hexCase
+			if hc == 2 {
+				hc = rng.Intn(2)
+			}
+			sb.WriteByte(c15Hex[hc][(u>>uint(sh))&15])
+		}
+	}
+}
+
+// the text between the quotes for key: style 0 raw, 1 every character escaped (lower-case hex), 2 the same with
+// upper-case hex, 3 a random subset escaped with hex digits of random case ('/' also as \/)
+func c15Spell(key string, style int, rng *rand.Rand) string {
+	if style == 0 {
+		return jsonKeyRaw(key)
+	}
+	var sb strings.Builder
+	for _, r := range key {
+		switch style {
+		case 1:
+			c15EscRune(&sb, r, 0, rng)
+		case 2:
+			c15EscRune(&sb, r, 1, rng)
+		default:
+			k := rng.Intn(3)
+			if k == 0 {
+				sb.WriteString(jsonKeyRaw(string(r)))
+			} else if k == 1 && r == '/' {
+				sb.WriteString(`\/`)
+			} else {
+				c15EscRune(&sb, r, 2, rng)
+			}
+		}
+	}
+	return sb.String()
+}
+
+// c15CheckX is c15Check plus the rule that needs no classifier: a key that is a field's name byte for byte selects
+// that field (exact match first), in every mode, whatever other names the struct has
+func c15CheckX(o *Out, names []string, t reflect.Type, key, spelled string) {
+	c15Check(o, names, t, key, spelled)
+	for i, n := range names {
+		if n != key {
+			continue
+		}
+		doc := []byte(`{"` + spelled + `":7}`)
+		for mode := 0; mode < 3; mode++ {
+			o.count("exact_key_cases", 1)
+			if got := c15Which(t, doc, mode); got != i {
+				o.violation("C15", "a key equal to a field's name did not select that field", map[string]string{
+					"names": strings.Join(names, ","), "doc": string(doc), "mode": fmt.Sprint(mode), "got": fmt.Sprint(got), "want": fmt.Sprint(i)})
+			}
+		}
+		break
+	}
+}
+
+// a key given by its spelling only (lone surrogate escapes have no Go string): the decoded key is encoding/json's
+func c15CheckSpelled(o *Out, names []string, t reflect.Type, spelled string) {
+	var key string
+	if err := stdjson.Unmarshal([]byte(`"`+spelled+`"`), &key); err != nil {
+		o.count("spelled_keys_not_json", 1)
+		return
+	}
+	c15CheckX(o, names, t, key, spelled)
+}
+
+// the bitmap model on one raw key (eligible name sets, ASCII keys)
+func c15EmitBitmap(o *Out, names, sorted []string, t reflect.Type, k string) {
+	if k == "" || !isASCII(k) {
+		return
+	}
+	got := c15Which(t, []byte(`{"`+jsonKeyRaw(k)+`":7}`), 0)
+	obs := "N"
+	if got >= 0 {
+		lk := strings.ToLower(names[got])
+		for si, sn := range sorted {
+			if sn == lk {
+				obs = fmt.Sprintf("F%d", si)
+			}
+		}
+	} else if got < -1 {
+		obs = "E"
+	}
+	o.emit("A", "c15.bitmap", [][]byte{[]byte(strings.Join(sorted, "\n")), []byte(k)}, []byte(obs), nil, false)
+}
+
+func c15ToggleASCII(s string, rng *rand.Rand, all bool) string {
+	b := []byte(s)
+	var pos []int
+	for i, c := range b {
+		if c >= 'a' && c <= 'z' || c >= 'A' && c <= 'Z' {
+			pos = append(pos, i)
+		}
+	}
+	if len(pos) == 0 {
+		return s
+	}
+	if !all {
+		pos = []int{pos[rng.Intn(len(pos))]}
+	}
+	for _, i := range pos {
+		b[i] ^= 0x20
+	}
+	return string(b)
+}
+
+// ---- long names: the bitmap matcher at and around its limits (64 bytes, 8/9 and 16/17 names), names that share
+// all but one position, prefix chains; keys one byte shorter, longer or different
+func c15LongNames(o *Out) {
+	r := o.rng
+	thorough := o.tier == "thorough"
+	lens := []int{3, 5, 8, 9, 16, 17, 31, 33, 62, 63, 64, 65, 80}
+	reps := 1
+	if thorough {
+		reps = 8
+	}
+	const letters = "cdefghijklmnopqrstuvwxyz" // not in the base alphabet
+	for rep := 0; rep < reps; rep++ {
+		for _, L := range lens {
+			for _, n := range []int{1, 2, 8, 9, 16, 17} {
+				for kind := 0; kind < 4; kind++ {
+					if n == 1 && kind > 0 {
+						continue
+					}
+					// base of L bytes; every other time with one two-byte letter inside
+					withE := kind != 3 && L >= 5 && r.Intn(2) == 0
+					ePos := -1
+					base := make([]byte, 0, L)
+					if withE {
+						ePos = 1 + r.Intn(L-4)
+					}
+					for len(base) < L {
+						if len(base) == ePos {
+							base = append(base, "é"...)
+							continue
+						}
+						c := "ab1_"[r.Intn(4)]
+						if c >= 'a' && r.Intn(3) == 0 {
+							c -= 32
+						}
+						base = append(base, c)
+					}
+					var names []string
+					switch kind {
+					case 3: // prefix chain
+						for i := 0; i < n && L-i >= 1; i++ {
+							names = append(names, string(base[:L-i]))
+						}
+					default:
+						p := L - 1
+						if kind == 1 {
+							p = 0
+						} else if kind == 2 {
+							p = r.Intn(L)
+							for p == ePos || p == ePos+1 {
+								p = r.Intn(L)
+							}
+						}
+						off := r.Intn(len(letters))
+						for i := 0; i < n; i++ {
+							b := append([]byte{}, base...)
+							b[p] = letters[(off+i)%len(letters)]
+							if r.Intn(3) == 0 {
+								b[p] -= 32
+							}
+							names = append(names, string(b))
+						}
+					}
+					r.Shuffle(len(names), func(i, j int) { names[i], names[j] = names[j], names[i] })
+					c15LongNameSet(o, names, L)
+				}
+			}
+		}
+	}
+}
+
+func c15LongNameSet(o *Out, names []string, L int) {
+	r := o.rng
+	t := c15Type(names)
+	o.current(map[string]string{"property": "C15", "phase": "long names", "names": strings.Join(names, ",")})
+	o.count("long_name_sets", 1)
+	o.hist("long_name_bytes", fmt.Sprint(L))
+	o.hist("long_name_fields", fmt.Sprint(len(names)))
+	sorted, eligible := c15Eligible(names)
+	if eligible {
+		o.count("long_name_sets_bitmap_eligible", 1)
+	}
+	// up to four names: the first and the last in sorted order and two others
+	pick := map[int]bool{}
+	lo, hi := 0, 0
+	for i := range names {
+		if strings.ToLower(names[i]) < strings.ToLower(names[lo]) {
+			lo = i
+		}
+		if strings.ToLower(names[i]) > strings.ToLower(names[hi]) {
+			hi = i
+		}
+	}
+	pick[lo], pick[hi] = true, true
+	for len(pick) < 4 && len(pick) < len(names) {
+		pick[r.Intn(len(names))] = true
+	}
+	var idx []int
+	for i := range pick {
+		idx = append(idx, i)
+	}
+	sort.Ints(idx)
+	for _, i := range idx {
+		nm := names[i]
+		other := names[r.Intn(len(names))]
+		keys := []string{nm, nm + "a", nm + nm[len(nm)-1:], c15ToggleASCII(nm, r, true), c15ToggleASCII(nm, r, false)}
+		if cut := nm[:len(nm)-1]; cut != "" && utf8.ValidString(cut) {
+			keys = append(keys, cut)
+		}
+		// one byte replaced
+		b := []byte(nm)
+		if p := r.Intn(len(b)); b[p] < 0x80 {
+			b[p] = 'q'
+			keys = append(keys, string(b))
+		}
+		// the head of one name and the tail of another
+		if h := 1 + r.Intn(len(nm)); h <= len(other) && utf8.ValidString(nm[:h]+other[h:]) {
+			keys = append(keys, nm[:h]+other[h:])
+		}
+		for _, k := range keys {
+			o.hist("long_name_key_bytes_minus_name_bytes", fmt.Sprint(len(k)-len(nm)))
+			for _, style := range []int{0, 1, 3} {
+				c15CheckX(o, names, t, k, c15Spell(k, style, r))
+			}
+			if eligible {
+				c15EmitBitmap(o, names, sorted, t, k)
+			}
+		}
+	}
+}
+
+// ---- escape spellings: upper-case and mixed hex digits, every hex digit value, surrogate pairs for a letter above
+// U+FFFF, a three-byte letter, \/ , the simple escapes and lone surrogates in keys that run on after a field's name
+var c15WideAlphabet = []string{"a", "z", "J", "k", "m", "x", "/", "é", "\U0001d49c", "中", "<", "_", "7", "."}
+
+func c15EscapeSpellings(o *Out) {
+	r := o.rng
+	nsets := 60
+	if o.tier == "thorough" {
+		nsets = 1500
+	}
+	tails := []string{"\n", "\"", "\\", "\t", "\b", "\f", "\r", "/", "\x00", " ", "\x7f", "\u00ad"}
+	loneTails := []string{`\ud800`, `\udc00`, `\uD800a`, `\ud835x`, `\ud835\ud835\udc9c`, `\udbff\udfff`, `\udc9c\ud835`, `\ud835\u00e9`, `\ud800\"`, `\ud800\\`, `\ud800\u0061`, `\uD800\n`}
+	fixed := [][]string{{"a/b", "a"}, {"\U0001d49c", "\U0001d49cz"}, {"é中", "é"}, {"/", "//"}, {"zJkmx7._"}}
+	for si := 0; si < nsets+len(fixed); si++ {
+		var names []string
+		if si < len(fixed) {
+			names = fixed[si]
+		} else {
+			n := 1 + r.Intn(17)
+			if r.Intn(3) == 0 {
+				n = []int{8, 9, 16, 17}[r.Intn(4)]
+			}
+			seen := map[string]bool{"-": true}
+			for len(names) < n {
+				c := ""
+				for l := 1 + r.Intn(3); l > 0; l-- {
+					c += c15WideAlphabet[r.Intn(len(c15WideAlphabet))]
+				}
+				if !seen[c] {
+					seen[c] = true
+					names = append(names, c)
+				}
+			}
+		}
+		t := c15Type(names)
+		o.current(map[string]string{"property": "C15", "phase": "escape spellings", "names": strings.Join(names, ",")})
+		o.count("escape_spelling_sets", 1)
+		for rep := 0; rep < 4; rep++ {
+			nm := names[r.Intn(len(names))]
+			_, last := utf8.DecodeLastRuneInString(nm)
+			keys := []string{nm, nm[:len(nm)-last], nm + c15WideAlphabet[r.Intn(len(c15WideAlphabet))], c15ToggleASCII(nm, r, false),
+				nm + tails[r.Intn(len(tails))], nm[:len(nm)-last] + tails[r.Intn(len(tails))], tails[r.Intn(len(tails))] + nm}
+			for _, k := range keys {
+				for style := 0; style < 4; style++ {
+					o.hist("escape_spelling_style", fmt.Sprint(style))
+					c15CheckX(o, names, t, k, c15Spell(k, style, r))
+				}
+			}
+			lt := loneTails[r.Intn(len(loneTails))]
+			for _, sp := range []string{jsonKeyRaw(nm) + lt, jsonKeyRaw(nm[:len(nm)-last]) + lt, lt + jsonKeyRaw(nm), lt} {
+				o.count("lone_surrogate_keys", 1)
+				c15CheckSpelled(o, names, t, sp)
+			}
+		}
+	}
+}
+
+// ---- documents with several members: duplicates in different spellings (the last one wins), unknown keys whose
+// values hold the names again, white space around keys, fields of other types (pointer, struct with a matcher of its
+// own), long padding (the stream window grows inside or before a key); every entry point; DisallowUnknownFields
+
+// the value of a fresh t after decoding doc by one entry point, as encoding/json prints it; "E" error, "P" panic.
+// modes: 0 Unmarshal, 1 Decoder (input in one piece), 2 Decoder (a byte per read), 3 Decoder (input cut at cuts),
+// 4 UnmarshalNoEscape, 5 and 6: 1 and 2 with DisallowUnknownFields; 9 encoding/json, 10 with DisallowUnknownFields
+func c15State(t reflect.Type, doc []byte, mode int, cuts []int) string {
+	v := reflect.New(t)
+	stream := func(rd io.Reader, disallow bool) error {
+		d := gojson.NewDecoder(rd)
+		if disallow {
+			d.DisallowUnknownFields()
+		}
+		if err := d.Decode(v.Interface()); err != nil {
+			return err
+		}
+		var rest interface{}
+		if err := d.Decode(&rest); err != io.EOF {
+			return fmt.Errorf("trailing data")
+		}
+		return nil
+	}
+	err := safeCall(func() error {
+		switch mode {
+		case 0:
+			return gojson.Unmarshal(doc, v.Interface())
+		case 1:
+			return stream(bytes.NewReader(doc), false)
+		case 2:
+			return stream(iotest.OneByteReader(bytes.NewReader(doc)), false)
+		case 3:
+			return stream(&cutReader{b: doc, cuts: cuts, failAt: -1}, false)
+		case 4:
+			return gojson.UnmarshalNoEscape(doc, v.Interface())
+		case 5:
+			return stream(bytes.NewReader(doc), true)
+		case 6:
+			return stream(iotest.OneByteReader(bytes.NewReader(doc)), true)
+		case 10:
+			d := stdjson.NewDecoder(bytes.NewReader(doc))
+			d.DisallowUnknownFields()
+			return d.Decode(v.Interface())
+		}
+		return stdjson.Unmarshal(doc, v.Interface())
+	})
+	if err != nil {
+		if strings.HasPrefix(err.Error(), "PANIC") {
+			return "P " + err.Error()
+		}
+		return "E"
+	}
+	b, _ := stdjson.Marshal(v.Interface())
+	return string(b)
+}
+
+// compares every entry point with encoding/json on one document
+func c15CompareDoc(o *Out, what string, names []string, t reflect.Type, doc []byte, cuts []int, detail map[string]string) {
+	want := c15State(t, doc, 9, nil)
+	wantD := c15State(t, doc, 10, nil)
+	if wantD == "E" && want != "E" {
+		o.count(what+"_rejected_for_unknown_field", 1)
+	}
+	for _, mode := range []int{0, 1, 2, 3, 4, 5, 6} {
+		w := want
+		if mode >= 5 {
+			w = wantD
+		}
+		got := c15State(t, doc, mode, cuts)
+		o.count(what+"_cases", 1)
+		if got != w {
+			d := map[string]string{"names": strings.Join(names, ","), "type": t.String(), "doc": string(doc), "mode": fmt.Sprint(mode), "cuts": fmt.Sprint(cuts), "got": got, "want": w}
+			for k, v := range detail {
+				d[k] = v
+			}
+			o.violation("C15", "decoding a document ("+what+") leaves the struct in a different state than encoding/json does", d)
+		}
+	}
+}
+
+// n names from pool, no two equal under case folding (for these alphabets: equal after strings.ToLower)
+func c15FoldDistinct(r *rand.Rand, pool []string, n int) []string {
+	seen := map[string]bool{}
+	var s []string
+	for tries := 0; len(s) < n && tries < 50*n; tries++ {
+		c := pool[r.Intn(len(pool))]
+		if l := strings.ToLower(c); !seen[l] {
+			seen[l] = true
+			s = append(s, c)
+		}
+	}
+	return s
+}
+
+var c15IntPtr = reflect.TypeOf((*int)(nil))
+
+func c15MultiKey(o *Out) {
+	r := o.rng
+	n := 300
+	if o.tier == "thorough" {
+		n = 6000
+	}
+	pool := append(c15Names(2), "ab1", "aB_é", "a<b", "abababab", "abababa", strings.Repeat("aB", 20), "b1_", "éé")
+	ws := []string{"", "", "", " ", "\n", "\t\r", "  \n "}
+	for i := 0; i < n; i++ {
+		nf := 1 + r.Intn(6)
+		switch r.Intn(8) {
+		case 0, 1:
+			nf = 9 + r.Intn(8)
+		case 2:
+			nf = 17 + r.Intn(3)
+		}
+		names := c15FoldDistinct(r, pool, nf)
+		// field types: int, *int, or a struct with names (and so a matcher) of its own
+		fields := make([]reflect.StructField, len(names))
+		subs := make([][]string, len(names))
+		kinds := make([]int, len(names))
+		for j, nm := range names {
+			ft := reflect.TypeOf(0)
+			switch r.Intn(10) {
+			case 0:
+				kinds[j], ft = 1, c15IntPtr
+			case 1, 2:
+				sn := 1 + r.Intn(3)
+				if r.Intn(3) == 0 {
+					sn = 8 + r.Intn(3)
+				}
+				kinds[j], subs[j] = 2, c15FoldDistinct(r, pool, sn)
+				ft = c15Type(subs[j])
+			}
+			fields[j] = reflect.StructField{Name: fmt.Sprintf("F%d", j), Type: ft, Tag: reflect.StructTag(fmt.Sprintf(`json:%q`, nm))}
+		}
+		t := reflect.StructOf(fields)
+		o.current(map[string]string{"property": "C15", "phase": "several members (documents drawn for this type)", "type": t.String(), "nth type": fmt.Sprint(i)})
+		o.hist("multikey_fields", fmt.Sprint(len(names)))
+		// which field a key selects: exact name, else the one name equal under folding
+		resolve := func(ns []string, k string) int {
+			for j, nm := range ns {
+				if nm == k {
+					return j
+				}
+			}
+			for j, nm := range ns {
+				if strings.EqualFold(nm, k) {
+					return j
+				}
+			}
+			return -1
+		}
+		genKey := func(ns []string) (string, string) {
+			nm := ns[r.Intn(len(ns))]
+			switch r.Intn(10) {
+			case 0, 1, 2, 3:
+				return nm, "exact"
+			case 4, 5:
+				return c15ToggleASCII(nm, r, r.Intn(2) == 0), "case changed"
+			case 6:
+				_, last := utf8.DecodeLastRuneInString(nm)
+				return nm[:len(nm)-last], "prefix"
+			case 7:
+				return nm + c15NameAlphabet[r.Intn(4)], "extension"
+			case 8:
+				return pool[r.Intn(len(pool))], "any"
+			}
+			return "zz" + nm, "unknown"
+		}
+		for d := 0; d < 5; d++ {
+			var sb strings.Builder
+			sb.WriteString(ws[r.Intn(len(ws))] + "{")
+			members := 1 + r.Intn(6)
+			padded := ""
+			for m := 0; m < members; m++ {
+				if m > 0 {
+					sb.WriteByte(',')
+				}
+				if r.Intn(12) == 0 {
+					// the window of the stream decoder ends before, inside or after the next key
+					sb.WriteString(strings.Repeat(" ", 440+r.Intn(90)))
+					padded = "white space"
+				} else if r.Intn(12) == 0 {
+					sb.WriteString(`"zq":"` + strings.Repeat("x", 440+r.Intn(90)) + `",`)
+					padded = "member"
+				}
+				key, kind := genKey(names)
+				o.hist("multikey_key_kind", kind)
+				sb.WriteString(ws[r.Intn(len(ws))] + `"` + c15Spell(key, r.Intn(4), r) + `"` + ws[r.Intn(len(ws))] + ":" + ws[r.Intn(len(ws))])
+				j := resolve(names, key)
+				val := strconv.Itoa(10 + m)
+				switch {
+				case j < 0:
+					nm := jsonKeyRaw(names[r.Intn(len(names))])
+					junk := []string{val, `"s"`, `"` + nm + `\":1,\"` + nm + `"`, `{"` + nm + `":99}`, `[{"` + nm + `":99}]`, "true", "null", "{}", "[]",
+						`{"x":{"` + nm + `":[1,{"` + nm + `":2}]},"` + nm + `":3}`, `"\\"`, `"}"`, `[[],"]",{"a":"}"}]`}
+					val = junk[r.Intn(len(junk))]
+					o.hist("multikey_value", "of an unknown key")
+				case kinds[j] == 1:
+					if r.Intn(4) == 0 {
+						val = "null"
+					}
+					o.hist("multikey_value", "for a pointer field")
+				case kinds[j] == 2:
+					if r.Intn(6) == 0 {
+						val = "null"
+						break
+					}
+					var in strings.Builder
+					in.WriteString("{" + ws[r.Intn(len(ws))])
+					for q, qn := 0, r.Intn(3); q < qn; q++ {
+						if q > 0 {
+							in.WriteByte(',')
+						}
+						sk, _ := genKey(subs[j])
+						sv := strconv.Itoa(100 + 10*m + q)
+						if resolve(subs[j], sk) < 0 && r.Intn(2) == 0 {
+							sv = `{"` + jsonKeyRaw(subs[j][0]) + `":5}`
+						}
+						in.WriteString(`"` + c15Spell(sk, r.Intn(4), r) + `"` + ws[r.Intn(len(ws))] + ":" + sv + ws[r.Intn(len(ws))])
+					}
+					in.WriteString("}")
+					val = in.String()
+					o.hist("multikey_value", "for a struct field")
+				default:
+					o.hist("multikey_value", "for an int field")
+				}
+				sb.WriteString(val + ws[r.Intn(len(ws))])
+			}
+			sb.WriteString("}" + ws[r.Intn(len(ws))])
+			doc := []byte(sb.String())
+			var cuts []int
+			for c := 0; c < 1+r.Intn(3) && len(doc) > 2; c++ {
+				cuts = append(cuts, 1+r.Intn(len(doc)-1))
+			}
+			sort.Ints(cuts)
+			o.hist("multikey_members", fmt.Sprint(members))
+			if padded != "" {
+				o.hist("multikey_padding", padded)
+			}
+			if len(doc) > 511 {
+				o.count("multikey_docs_longer_than_first_window", 1)
+			}
+			c15CompareDoc(o, "multikey", names, t, doc, cuts, nil)
+		}
+	}
+}
+
+// ---- a key at every position relative to the end of the stream decoder's first window (511 bytes) and second
+// (1023), reached by white space or by a member before it
+func c15BufferBoundary(o *Out) {
+	r := o.rng
+	sets := [][]string{{"a", "ab"}, {"abcdefgh", "abcdefgx"}, {"é\U0001d49c", "é"},
+		{"n0", "n1", "n2", "n3", "n4", "n5", "n6", "n7", "n8", "n8x"},
+		{"m0", "m1", "m2", "m3", "m4", "m5", "m6", "m7", "m8", "m9", "ma", "mb", "mc", "md", "me", "mf", "mg"}}
+	lims := []int{511}
+	if o.tier == "thorough" {
+		lims = []int{511, 1023, 2047}
+	}
+	for _, names := range sets {
+		t := c15Type(names)
+		last := names[len(names)-1]
+		keys := []string{names[0], last, last + "y", last[:len(last)-1], c15ToggleASCII(last, r, true)}
+		for _, k := range keys {
+			for _, style := range []int{0, 1, 3} {
+				spelled := c15Spell(k, style, r)
+				member := `"` + spelled + `":7`
+				o.current(map[string]string{"property": "C15", "phase": "window boundary (member moved across the end of the window)", "names": strings.Join(names, ","), "member": member})
+				for _, lim := range lims {
+					for start := lim - len(member) - 1; start <= lim+1; start++ {
+						docs := []string{"{" + strings.Repeat(" ", start-1) + member + "}",
+							`{"zq":"` + strings.Repeat("x", start-9) + `",` + member + "}",
+							`{"` + jsonKeyRaw(names[0]) + `":1,` + strings.Repeat("\n", start-6-len(jsonKeyRaw(names[0]))) + member + "}"}
+						for di, doc := range docs {
+							o.hist("boundary_key_start_minus_window_end", fmt.Sprint(start-lim))
+							c15CompareDoc(o, "boundary", names, t, []byte(doc), []int{lim, lim + 1}, map[string]string{"variant": fmt.Sprint(di)})
+						}
+					}
+				}
+			}
+		}
+	}
+}
+
+// ---- every character in a tag name: which characters make a tag name valid is a table in the library
+// (runtime.isValidTag) that must agree with encoding/json's; an invalid name falls back to the Go name.  With the
+// options omitempty / string / none after it, both directions, and the other encoder entry points.
+func c15TagChars(o *Out) {
+	var chars []rune
+	for c := rune(0x20); c < 0x7f; c++ {
+		chars = append(chars, c)
+	}
+	chars = append(chars, 'é', 'ß', '中', 0x1d49c, '٣', '²', 0xa0, 0x2028, '…', 'ª', 0x1f600, 0x301, 0xfffd, 0x7f,
+		'\t', '\n', 0, 0x85, 'ǅ', 'ⅷ', 'Ⅰ', 'Ａ', 'ก', 'ẞ')
+	for _, c := range chars {
+		o.current(map[string]string{"property": "C15", "phase": "tag characters", "character": fmt.Sprintf("%U", c)})
+		for ni, name := range []string{string(c), "a" + string(c), string(c) + "a", "a" + string(c) + "b"} {
+			for _, opt := range []string{"", ",omitempty", ",string", ","} {
+				if ni > 0 && opt != "" {
+					continue // the options with the one-character name only
+				}
+				tag := reflect.StructTag(`json:` + strconv.Quote(name+opt))
+				if got, _ := tag.Lookup("json"); got != name+opt {
+					o.count("tag_not_representable", 1)
+					continue
+				}
+				t := reflect.StructOf([]reflect.StructField{
+					{Name: "F", Type: reflect.TypeOf(0), Tag: tag},
+					{Name: "G", Type: reflect.TypeOf(0), Tag: `json:"g"`},
+				})
+				o.count("tag_char_types", 1)
+				for _, fv := range []int64{0, 1} {
+					v := reflect.New(t).Elem()
+					v.Field(0).SetInt(fv)
+					v.Field(1).SetInt(2)
+					c15EncodeAll(o, string(tag), v.Interface())
+				}
+				keys := []string{name, "F", "f", "a", "ab"}
+				if i := strings.IndexByte(name, ','); i >= 0 {
+					keys = append(keys, name[:i])
+				}
+				for _, k := range keys {
+					for _, val := range []string{"7", `"7"`} {
+						doc := []byte(`{"` + jsonKeyRaw(k) + `":` + val + `,"g":3}`)
+						want := c15State(t, doc, 9, nil)
+						for mode := 0; mode < 3; mode++ {
+							o.count("tag_char_decode_cases", 1)
+							if got := c15State(t, doc, mode, nil); got != want {
+								o.violation("C15", "a field with this tag is not selected by the keys encoding/json selects it by", map[string]string{
+									"tag": string(tag), "doc": string(doc), "mode": fmt.Sprint(mode), "got": got, "want": want})
+							}
+						}
+					}
+				}
+			}
+		}
+	}
+}
+
+// the members of v by every encoder entry point: Marshal, MarshalIndent, Encoder with and without HTML escaping,
+// with and without indentation
+func c15EncodeAll(o *Out, what string, v interface{}) {
+	type res struct {
+		b   []byte
+		err error
+	}
+	enc := func(lib string, variant int) res {
+		var out res
+		if perr := safeCall(func() error {
+			var buf bytes.Buffer
+			switch {
+			case variant == 0 && lib == "go":
+				out.b, out.err = gojson.Marshal(v)
+			case variant == 0:
+				out.b, out.err = stdjson.Marshal(v)
+			case variant == 1 && lib == "go":
+				out.b, out.err = gojson.MarshalIndent(v, ">", "\t")
+			case variant == 1:
+				out.b, out.err = stdjson.MarshalIndent(v, ">", "\t")
+			case lib == "go":
+				e := gojson.NewEncoder(&buf)
+				e.SetEscapeHTML(variant == 4)
+				if variant >= 3 {
+					e.SetIndent("", " ")
+				}
+				out.err = e.Encode(v)
+				out.b = buf.Bytes()
+			default:
+				e := stdjson.NewEncoder(&buf)
+				e.SetEscapeHTML(variant == 4)
+				if variant >= 3 {
+					e.SetIndent("", " ")
+				}
+				out.err = e.Encode(v)
+				out.b = buf.Bytes()
+			}
+			return nil
+		}); perr != nil {
+			out.err = perr
+		}
+		return out
+	}
+	for variant := 0; variant < 5; variant++ {
+		g, w := enc("go", variant), enc("std", variant)
+		o.count("encode_entry_point_cases", 1)
+		if (g.err != nil) != (w.err != nil) || (g.err == nil && !bytes.Equal(g.b, w.b)) {
+			o.violation("C15", "member names/order differ from encoding/json", map[string]string{"value of": what, "entry": []string{"Marshal", "MarshalIndent", "Encoder no HTML escape", "Encoder no HTML escape, indent", "Encoder indent"}[variant],
+				"got": string(g.b), "want": string(w.b), "gerr": fmt.Sprint(g.err), "werr": fmt.Sprint(w.err)})
+		}
+	}
+}
+
+// ---- the option DecodeFieldPriorityFirstWin: of several members that select the same field the first one counts.
+// The keys still select fields by the same rules, so the reference is encoding/json on the document without the
+// later members of each field (names pairwise different under case folding: which field a key selects is then the
+// same for both libraries, recorded tie rule or not).
+func c15FirstWin(o *Out) {
+	r := o.rng
+	n := 150
+	if o.tier == "thorough" {
+		n = 3000
+	}
+	pool := append(c15Names(2), "ab1", "aB_é", "abababab", "abababa")
+	for i := 0; i < n; i++ {
+		nf := 1 + r.Intn(5)
+		if r.Intn(4) == 0 {
+			nf = 9 + r.Intn(9)
+		}
+		names := c15FoldDistinct(r, pool, nf)
+		t := c15Type(names)
+		o.current(map[string]string{"property": "C15", "phase": "first member wins", "names": strings.Join(names, ",")})
+		for d := 0; d < 4; d++ {
+			var full, reduced []string
+			seen := map[int]bool{}
+			for m, members := 0, 1+r.Intn(7); m < members; m++ {
+				nm := names[r.Intn(len(names))]
+				key := nm
+				switch r.Intn(6) {
+				case 0, 1:
+					key = c15ToggleASCII(nm, r, r.Intn(2) == 0)
+				case 2:
+					key = nm + "a"
+				case 3:
+					key = "q" + nm
+				}
+				member := `"` + c15Spell(key, r.Intn(4), r) + `":` + strconv.Itoa(10+m)
+				full = append(full, member)
+				j := -1
+				for x, cand := range names {
+					if cand == key {
+						j = x
+					}
+				}
+				for x, cand := range names {
+					if j < 0 && strings.EqualFold(cand, key) {
+						j = x
+					}
+				}
+				if j >= 0 && seen[j] {
+					o.count("first_win_members_that_must_not_count", 1)
+					continue
+				}
+				if j >= 0 {
+					seen[j] = true
+				}
+				reduced = append(reduced, member)
+			}
+			doc := []byte("{" + strings.Join(full, ",") + "}")
+			want := c15State(t, []byte("{"+strings.Join(reduced, ",")+"}"), 9, nil)
+			for mode := 0; mode < 3; mode++ {
+				v := reflect.New(t)
+				err := safeCall(func() error {
+					switch mode {
+					case 0:
+						return gojson.UnmarshalWithOption(doc, v.Interface(), gojson.DecodeFieldPriorityFirstWin())
+					case 1:
+						return gojson.NewDecoder(bytes.NewReader(doc)).DecodeWithOption(v.Interface(), gojson.DecodeFieldPriorityFirstWin())
+					}
+					return gojson.NewDecoder(iotest.OneByteReader(bytes.NewReader(doc))).DecodeWithOption(v.Interface(), gojson.DecodeFieldPriorityFirstWin())
+				})
+				got := "E " + fmt.Sprint(err)
+				if err == nil {
+					b, _ := stdjson.Marshal(v.Interface())
+					got = string(b)
+				}
+				o.count("first_win_cases", 1)
+				if got != want {
+					o.violation("C15", "with DecodeFieldPriorityFirstWin the struct is not what encoding/json makes of the document without the later members of each field", map[string]string{
+						"names": strings.Join(names, ","), "doc": string(doc), "mode": fmt.Sprint(mode), "got": got, "want": want})
+				}
+			}
+		}
+	}
 }
